@@ -16,7 +16,14 @@ var cfgVals = []string{"linux", "amd64", "golang.org/x/perf", "v", "12", "Intel(
 var Units = []string{"ns/op", "MB/s", "B/op", "allocs/op", "sec/op", "B/s", "ns", "MB", "widgets", "x-bytes", "ns/MB", "µs", "%", "ns-MB", "nsec/op", "GC-ns/op", "u", "%cpu", "%d", "àB/op", "MB*MB*MB*ns*ns/op"}
 var nameBases = []string{"X", "Encode", "Decode/size=4k", "Foo/bar", "A/k=v/size=1", "", "é", "X/a=/b", "_", "9", "Sort/n=10/kind=rand"}
 var floats = []string{"1", "0", "2.5", "100", "1e3", "1.5e-7", "12345678", "0.000001", "-3", "+4", "NaN", "Inf", "-Inf", "+Inf",
-	"1e25", "5e24", "2.5e30", "4e23", "1e-30", "0x1p-2", ".5", "5.", "9223372036854775808", "9223372036854775809", "92233720368547758089", "18446744073709551616", "922337203685477580", "1e-320", "007", "-0"}
+	"1e25", "5e24", "2.5e30", "4e23", "1e-30", "0x1p-2", ".5", "5.", "9223372036854775808", "9223372036854775809", "92233720368547758089", "18446744073709551616", "922337203685477580", "1e-320", "007", "-0",
+	// forms that leave the number parser's exact fast path: upper-case exponent markers, exact
+	// ties between adjacent floats (even and odd lower neighbour), 16+ digit mantissas, values
+	// rounding up to a power of two, the subnormal border
+	"1E40", "2.5E-30", "1.2345678901234567E3", "4503599627370496E0", "1E-300", "1.5E3",
+	"9007199254740993.0", "9.007199254740993e15", "18014398509481986.0", "4503599627370498.5", "9007199254740995.0", "4503599627370497.5",
+	"1.00000000000000011102230246251565404236316680908203125", "9.313225746154785e-10", "2.220446049250313e-16", "1.1805916207174113e+21",
+	"3e-324", "2.4703282292062328e-324", "4.9406564584124654e-324", "1.7976931348623157e308", "1.7976931348623159e308", "+1.5e+3", "-2.5E+0"}
 var seps = []string{" ", " ", " ", "\t", "  ", " \t ", "\u00a0", "\u2003", "\u0085", "\v", "\f"}
 
 func pick(t *rapid.T, xs []string, label string) string { return rapid.SampledFrom(xs).Draw(t, label) }
